@@ -73,7 +73,7 @@ def c13_project(seed, nfiles, mode, reps):
     rcw, wout, _ = gen_once(ws, mode)
     cases.append(Case(dict(desc, what="whitespace"), {"whitespace_irrelevant": rcw == 0 and {k: v for k, v in wout.items() if k != ".typecache"}
                                                       == {k: v for k, v in base.items() if k != ".typecache"}}))
-    for what, tr in (("reorder", projgen.reorder), ("move", projgen.move_items), ("split", projgen.split_helpers)):
+    for what, tr in (("reorder", projgen.reorder), ("move", projgen.move_items), ("split", projgen.split_helpers), ("move_odd_dirs", projgen.move_to_odd_dirs)):
         rct, tout, _ = gen_once(projgen.render(tr(p, seed + 2)), mode)
         ok = rct == 0 and all(sorted(proc.blocks(tout.get(n, ""))) == sorted(proc.blocks(base[n]))
                               for n in base if n.endswith(".ts"))
@@ -81,10 +81,22 @@ def c13_project(seed, nfiles, mode, reps):
     return cases
 
 
+def c13_verbose_long(seed, mode):
+    """verbosity on a project whose commands name many types with long non-ASCII names (whatever the analysis prints about
+    them must not change, or end, the run)"""
+    files = projgen.render(projgen.make_project(seed, 1))
+    rc0, base, _ = gen_once(files, mode)
+    rc1, verb, se = gen_once(files, mode, ["--verbose"])
+    return Case({"what": "verbose_long", "seed": seed, "mode": mode}, {"verbose_irrelevant": rc0 == 0 and rc1 == 0 and verb == base},
+                detail={"rc": [rc0, rc1], "stderr": se[-200:]})
+
+
 def cases_c13(ctx):
     tier, seed = ctx["tier"], ctx["seed"]
     if ctx["replay"]:
         d = ctx["replay"]["replay_case"]
+        if d.get("what") == "verbose_long":
+            return [c13_verbose_long(d["seed"], d["mode"])]
         return c13_project(d["seed"], d["nfiles"], d["mode"], 12)
     out = []
     nproj, reps = (30, 40) if tier == "thorough" else (5, 8)
@@ -92,6 +104,8 @@ def cases_c13(ctx):
         nfiles = 2 + (i % 5)
         for mode in ("none", "zod"):
             out += c13_project(seed * 1000 + i, nfiles, mode, reps)
+    for k in range(24 if tier == "thorough" else 8):
+        out.append(c13_verbose_long(4 * (seed * 50 + k) + 3, ("none", "zod")[k % 2]))
     return out
 
 
@@ -246,7 +260,19 @@ def c14_multi(seed, nfiles, mode, build, viz=False, prim=False):
                 json.dump({"productName": "x"}, fh)
         run = (lambda: proc.run_build(d)) if build else (lambda: proc.run_cli(d, ["generate", "-c", "typegen.json"]))
         rc1, _, e1 = run()
-        s1 = proc.snapshot(os.path.join(d, "out"))
+        outd = os.path.join(d, "out")
+        if rc1 == 0 and seed % 3 == 0 and os.path.isfile(os.path.join(outd, "types.ts")):
+            # one output file is a symbolic link to a regular file with the same bytes (outputs kept in another tree)
+            store = os.path.join(d, "store")
+            os.makedirs(store, exist_ok=True)
+            shutil.move(os.path.join(outd, "types.ts"), os.path.join(store, "types.ts"))
+            os.symlink(os.path.join(store, "types.ts"), os.path.join(outd, "types.ts"))
+        if rc1 == 0 and seed % 2 == 0:
+            # files of the user's that merely look generated, appearing after the first generation
+            for n in ("api_generated.md", "generated_notes.txt", "schemas.d.ts", "README.md"):
+                with open(os.path.join(outd, n), "w") as fh:
+                    fh.write("mine: %s\n" % n)
+        s1 = proc.snapshot(outd)
         touched = []
         ok = rc1 == 0
         for k in range(3):
@@ -442,9 +468,9 @@ def cases_c17(ctx):
     out = history_cases(hs, ctx, extra_oracle=fault_oracle)
     for f in range(4):
         out.append(c17_init_case(f, ("none", "zod")[f % 2]))
-    # crash points: the process is killed inside the write that would push a file past 100 / 400 / 900 / 1500 bytes
+    # crash points: the process is killed inside the write that would push a file past 0 / 100 / 400 / 900 / 1500 bytes
     for build in (False, True):
-        for k, limit in enumerate((100, 400, 900, 1500) if tier == "thorough" else (400, 1500)):
+        for k, limit in enumerate((0, 100, 400, 900, 1500) if tier == "thorough" else (0, 400, 1500)):
             out.append(c17_crash_case(build, limit, ("param_type", "cmd_name")[k % 2], k % 2 == 1))
     return out
 
@@ -496,6 +522,10 @@ def c16_case(layout, path_kind, mode, seq, seed, tables=None):
                 open(os.path.join(q, "types.ts"), "w").write("// foreign file in a subdirectory\n")
             else:
                 open(q, "w").write("foreign %s\n" % n)
+        # frozen copies of earlier bindings under names of the user's choosing: they carry the tool's header
+        header = "/**\n * Auto-generated TypeScript bindings for Tauri commands\n * Generated by tauri-typegen v0.4.2\n * Do not edit manually\n */\nexport const frozen = 1;\n"
+        for n in ("api-v1.ts", "frozen-types.ts", "legacy.bindings.ts"):
+            open(os.path.join(out_abs, n), "w").write(header)
         out_arg = out_abs if path_kind == "abs" else out_rel
         with open(os.path.join(proj, "typegen.json"), "w") as fh:
             json.dump({"project_path": "src-tauri", "output_path": out_arg, "validation_library": mode}, fh)
@@ -592,6 +622,27 @@ def c16_case(layout, path_kind, mode, seq, seed, tables=None):
         proc.cleanup(root)
 
 
+def c16_flag_default_case(mode, spelling):
+    """the output directory is given on the command line in exactly the spelling of the built-in default while a discovered
+    tauri.conf.json names another one: the flag decides, nothing is created at the file's path"""
+    root = proc.sandbox("c16d")
+    try:
+        proc.write_files(os.path.join(root, "src-tauri"), PRIM_ONLY)
+        with open(os.path.join(root, "tauri.conf.json"), "w") as fh:
+            json.dump({"productName": "x", "plugins": {"typegen": {"projectPath": "./src-tauri", "outputPath": "./elsewhere/bindings", "validationLibrary": mode}}}, fh)
+        before = proc.snapshot(root)
+        rc, so, se = proc.run_cli(root, ["generate", "-o", spelling])
+        after = proc.snapshot(root)
+        allowed = os.path.normpath(spelling)
+        bad = [p for p in sorted(set(before) | set(after)) if before.get(p) != after.get(p)
+               and not (p.rstrip("/") == allowed or p.startswith(allowed + "/") or (allowed + "/").startswith(p))]
+        return Case({"what": "flag_default", "mode": mode, "spelling": spelling},
+                    {"only_own_files_touched": rc == 0 and not bad and os.path.isfile(os.path.join(root, allowed, "commands.ts"))}, [],
+                    detail={"rc": rc, "outside": bad[:6], "stderr": se[-200:]})
+    finally:
+        proc.cleanup(root)
+
+
 def c16_subdir_case(mode, seed):
     """build-script path with a current directory strictly below the directory that holds tauri.conf.json: the
     configured (cwd-relative) output directory is <cwd>/gen_out; a same-named directory beside the configuration
@@ -644,6 +695,8 @@ def cases_c16(ctx):
         d = ctx["replay"]["replay_case"]
         if d.get("what") == "build_subdir":
             return [c16_subdir_case(d["mode"], d["seed"])]
+        if d.get("what") == "flag_default":
+            return [c16_flag_default_case(d["mode"], d["spelling"])]
         return [c16_case(d["layout"], d["path"], d["mode"], d["seq"], d["seed"], ctx["tables"])]
     seqs = [
         ["generate", "generate"],
@@ -692,6 +745,8 @@ def cases_c16(ctx):
     out = list(POOL.map(lambda a: c16_case(*a), jobs))
     for k, mode in enumerate(("none", "zod")):
         out.append(c16_subdir_case(mode, seed * 10 + k))
+        for sp in ("./src/generated", "src/generated", "./out"):
+            out.append(c16_flag_default_case(mode, sp))
     return out
 
 
@@ -807,6 +862,27 @@ def c19_init_case(lib, plugins_value):
         proc.cleanup(root)
 
 
+def c19_init_badpath_case(project_arg, out_arg):
+    """init with a project path that cannot exist (a component of it is a regular file, a name too long): rejected before
+    anything is written"""
+    root = proc.sandbox("c19b")
+    try:
+        c19_project(root, "src-tauri", "from_default")
+        with open(os.path.join(root, "notes.txt"), "w") as fh:
+            fh.write("a regular file\n")
+        os.makedirs(os.path.join(root, "conf"), exist_ok=True)
+        with open(os.path.join(root, "conf", "tauri.conf.json"), "w") as fh:
+            json.dump({"productName": "conf-doc"}, fh)
+        snap = proc.snapshot(root)
+        rc, so, se = proc.run_cli(root, ["init", "-p", project_arg, "-g", "out", "-o", out_arg, "-v", "zod"])
+        snap2 = proc.snapshot(root)
+        return Case({"what": "init_badpath", "project": project_arg, "output": out_arg},
+                    {"rejected_with_error": rc != 0, "nothing_written_on_rejection": snap == snap2}, [],
+                    detail={"rc": rc, "stderr": se[-200:], "changed": sorted(k for k in set(snap) | set(snap2) if snap.get(k) != snap2.get(k))[:6]})
+    finally:
+        proc.cleanup(root)
+
+
 def c19_init_target_case(out_arg, lib):
     """init told where the configuration lives (`--output <path>`): exactly that document receives the settings, every
     other key of it is preserved, and a tauri.conf.json elsewhere (in the project path / the working directory) is left
@@ -847,6 +923,8 @@ def cases_c19(ctx):
             return [c19_init_case(d["lib"], d["plugins"])]
         if d.get("what") == "init_target":
             return [c19_init_target_case(d["output"], d["lib"])]
+        if d.get("what") == "init_badpath":
+            return [c19_init_badpath_case(d["project"], d["output"])]
         return [c19_resolve_case(d["flags"], d["file"], ctx["tables"], d.get("spelling", "plain"))]
     files = [None,
              {"projectPath": "projA", "outputPath": "outFile", "validationLibrary": "zod"},
@@ -854,7 +932,9 @@ def cases_c19(ctx):
              {"projectPath": "projA", "outputPath": "outFile", "validationLibrary": "yup"},
              {"projectPath": "missing/dir", "outputPath": "outFile", "validationLibrary": "zod"},
              {"outputPath": "outFile"},
-             {}]
+             {},
+             # members of the wrong JSON type next to good ones: the good ones still count
+             {"projectPath": "projA", "outputPath": "outFile", "validationLibrary": "zod", "excludePatterns": "target/**", "typeMappings": ["x"], "includePatterns": 7}]
     jobs = []
     flag_keys = [("p", "projB"), ("o", "outFlag"), ("v", "none"), ("verbose", True), ("force", True)]
     for mask in range(32):
@@ -863,6 +943,11 @@ def cases_c19(ctx):
             if tier != "thorough" and (mask % 3 == 2) and f not in (files[1], files[3], files[4]):
                 continue
             jobs.append((flags, f, ctx["tables"], ("plain", "escaped", "pretty", "reversed")[len(jobs) % 4]))
+    # a flag whose value is spelled exactly like the built-in default is still a flag
+    for f in (files[1], files[2], files[5]):
+        jobs.append(({"o": "./src/generated"}, f, ctx["tables"]))
+        jobs.append(({"p": "./src-tauri", "o": "./src/generated", "v": "none"}, f, ctx["tables"]))
+        jobs.append(({"p": "./src-tauri"}, f, ctx["tables"]))
     jobs.append(({"v": "yup"}, files[1], ctx["tables"]))
     jobs.append(({"p": "nowhere"}, files[1], ctx["tables"]))
     out = list(POOL.map(lambda a: c19_resolve_case(*a), jobs))
@@ -871,4 +956,7 @@ def cases_c19(ctx):
             out.append(c19_init_case(lib, pl))
     for k, o in enumerate(("tauri.conf.json", "./tauri.conf.json", "conf/tauri.conf.json", "./conf/tauri.conf.json", "src-tauri/tauri.conf.json", "conf/../tauri.conf.json")):
         out.append(c19_init_target_case(o, ("zod", "none")[k % 2]))
+    for pa in ("notes.txt/src-tauri", "missing/dir", "x" * 300 + "/src-tauri"):
+        for o in ("conf/tauri.conf.json", "typegen.json"):
+            out.append(c19_init_badpath_case(pa, o))
     return out
